@@ -2,13 +2,18 @@
  * build) VERIF_LOOP(name) expands to nothing.  With it defined, the
  * verification harness supplies verif_loop_contracts.h (via -I), which
  * defines VERIF_LOOP_<name> as the CBMC loop contract of that loop.
+ * VERIF_CONST_DATA marks static tables that are never written: under
+ * verification they are compiled as const, so the verifier may rely on
+ * their initialisers (and the compiler rejects any write to them).
  */
 #ifndef INC_VERIF_HOOKS_H
 #define INC_VERIF_HOOKS_H 1
 #ifdef BEEBTOOLS_VERIF
 #include "verif_loop_contracts.h"
 #define VERIF_LOOP(name) VERIF_LOOP_##name
+#define VERIF_CONST_DATA const
 #else
 #define VERIF_LOOP(name)
+#define VERIF_CONST_DATA
 #endif
 #endif
